@@ -78,6 +78,136 @@ structure Exact (f : Font) : Prop where
   complete : ∀ n, Exists f n → n ∈ glyphOrder f
   sound : ∀ n, n ∈ glyphOrder f → Exists f n
 
+/-! ### Notifications, held and delivered -/
+
+/-- the names a notification speaks about -/
+def Note.names : Note → List Name
+  | .added n => [n]
+  | .deleted n => [n]
+  | .renamed o n => [o, n]
+
+/-- the notification announces a glyph called `g` (created, or renamed to `g`) -/
+def Note.introduces : Note → Name → Bool
+  | .added n, g => decide (n = g)
+  | .deleted _, _ => false
+  | .renamed _ n, g => decide (n = g)
+
+/-- the notification announces that the glyph called `g` is gone (deleted, or renamed away) -/
+def Note.removes : Note → Name → Bool
+  | .added _, _ => false
+  | .deleted n, g => decide (n = g)
+  | .renamed o _, g => decide (o = g)
+
+/-- the arguments `(addedGlyph, removedGlyph)` with which the font's callback for a notification
+calls `updateGlyphOrder`, given `ex` = "some layer has a glyph of that name" AT THE MOMENT OF
+DELIVERY (`(none, none)` = no call) -/
+def deliverArgs (ex : Name → Bool) : Note → Option Name × Option Name
+  | .added n => (some n, none)
+  | .deleted n => if ex n then (none, none) else (none, some n)
+  | .renamed o n => (some n, if ex o then none else some o)
+
+/-- what the delivery of one notification should make of the order -/
+def specDeliver (ex : Name → Bool) (o : List Name) (note : Note) : List Name :=
+  specUpdate o (deliverArgs ex note).1 (deliverArgs ex note).2
+
+/-- … and of a whole queue, delivered in order against one and the same state of the layers (the
+layers do not change while a hold is being released) -/
+def specDeliverAll (ex : Name → Bool) (o : List Name) (q : List Note) : List Name :=
+  q.foldl (specDeliver ex) o
+
+/-- the centre's coalescing: a notification equal to one already queued is not queued again -/
+def coalesce : List Note → List Note → List Note
+  | q, [] => q
+  | q, n :: ns => coalesce (enqueue q n) ns
+
+/-- according to the LAST notification of `q` that speaks about `g`: `some true` = a glyph of that
+name was put into the layer, `some false` = it was taken out, `none` = `q` does not speak about `g` -/
+def lastSays : List Note → Name → Option Bool
+  | [], _ => none
+  | note :: rest, g =>
+    match lastSays rest g with
+    | some b => some b
+    | none => if note.introduces g then some true else if note.removes g then some false else none
+
+/-- what one glyph operation on a layer does to (the layer's glyph names, the notifications the
+layer has posted so far) — said without the font: creation adds the name and posts `GlyphAdded`,
+deletion of a present name removes it and posts `GlyphDeleted`, a real renaming of a present name
+moves the name and posts `GlyphNameChanged`; anything else (absent name, same name) does nothing -/
+def blockStep (s : List Name × List Note) : Op → List Name × List Note
+  | .newGlyph _ g => (addName s.1 g, s.2 ++ [.added g])
+  | .insertGlyph _ g => (addName s.1 g, s.2 ++ [.added g])
+  | .delGlyph _ g => if g ∈ s.1 then (removeName s.1 g, s.2 ++ [.deleted g]) else s
+  | .rename _ o n =>
+    if o ∈ s.1 then (if o = n then s else (addName (removeName s.1 o) n, s.2 ++ [.renamed o n])) else s
+  | _ => s
+
+/-- the notification a glyph operation makes the layer post when the layer's names are `gl` (`none`
+when the operation is rejected or changes nothing) -/
+def noteOf (gl : List Name) : Op → Option Note
+  | .newGlyph _ g => some (.added g)
+  | .insertGlyph _ g => some (.added g)
+  | .delGlyph _ g => if g ∈ gl then some (.deleted g) else none
+  | .rename _ o n => if o ∈ gl then (if o = n then none else some (.renamed o n)) else none
+  | _ => none
+
+/-- … and a block of them -/
+def blockRun (s : List Name × List Note) (ops : List Op) : List Name × List Note :=
+  ops.foldl blockStep s
+
+/-- `font.layers[L].keys()` (empty when there is no such layer) -/
+def layerGlyphs (f : Font) (L : String) : List Name := ((AL.get? f.layers L).map (·.glyphs)).getD []
+
+/-- a block of operations run inside `layer.holdNotifications()` … `layer.releaseHeldNotifications()` -/
+def heldRun (f : Font) (L : String) (block : List Op) : Font :=
+  run f ([.holdLayer L] ++ block ++ [.releaseLayer L])
+
+/-- … and inside `layer.disableNotifications()` … `layer.enableNotifications()` -/
+def disabledRun (f : Font) (L : String) (block : List Op) : Font :=
+  run f ([.disableLayer L] ++ block ++ [.enableLayer L])
+
+/-- Along the run of a block WITHOUT a hold, every callback got — about the names it asks about — the
+answers `ex` gives (`ex` will be "some layer has a glyph of that name at the end of the block") -/
+def answersAs (ex : Name → Bool) (L : String) : Font → List Op → Bool
+  | _, [] => true
+  | f, op :: ops =>
+    (match noteOf (layerGlyphs f L) op with
+     | some nt => decide (deliverArgs (anyLayerHas (step f op).1) nt = deliverArgs ex nt)
+     | none => true) && answersAs ex L (step f op).1 ops
+
+def AnswersAs (ex : Name → Bool) (L : String) (f : Font) (ops : List Op) : Prop :=
+  answersAs ex L f ops = true
+
+instance (ex : Name → Bool) (L : String) (f : Font) (ops : List Op) : Decidable (AnswersAs ex L f ops) := by
+  unfold AnswersAs; exact inferInstance
+
+/-- every glyph name mentioned by a held notification of some layer -/
+def queuedNames (f : Font) : List Name :=
+  f.layers.flatMap (fun kl => kl.2.queue.flatMap Note.names)
+
+/-- nothing is held or disabled on this layer (and, as always then, nothing is queued) -/
+def Layer.calm (l : Layer) : Prop := l.held = 0 ∧ l.disabled = 0 ∧ l.queue = []
+
+instance (l : Layer) : Decidable l.calm := by unfold Layer.calm; exact inferInstance
+
+/-- no layer's notifications are held or disabled: every notification reaches the font at once -/
+def Calm (f : Font) : Prop := ∀ kl ∈ f.layers, kl.2.calm
+
+/-- layer `L` exists and nothing is held or disabled on it -/
+def CalmLayer (f : Font) (L : String) : Prop := ∃ l, AL.get? f.layers L = some l ∧ l.calm
+
+/-- nothing is held or disabled on layer `L`: every notification of the layer reaches the font at
+once (what holds as long as nobody calls `holdNotifications` / `disableNotifications` on it) -/
+def Undisturbed (f : Font) (L : String) : Prop :=
+  match AL.get? f.layers L with
+  | some l => l.held = 0 ∧ l.disabled = 0
+  | none => True
+
+instance (f : Font) (L : String) : Decidable (Undisturbed f L) := by
+  unfold Undisturbed; cases AL.get? f.layers L <;> exact inferInstance
+
+/-- the default layer, when it is a layer of the font, is one of `font.layers` -/
+def DefaultOK (f : Font) : Prop := ∀ L, f.default = some L → AL.contains f.layers L = true
+
 /-! ### Classification of operations -/
 
 /-- operations through which the font *updates* the order itself (everything except direct
@@ -87,12 +217,31 @@ def Op.isUpdate : Op → Bool
   | .setLib _ => false
   | _ => true
 
-/-- glyph-set operations proper: create / insert / delete / rename -/
+/-- operations that hold, release, disable or enable a layer's notifications -/
+def Op.isSuspend : Op → Bool
+  | .holdLayer _ => true
+  | .releaseLayer _ => true
+  | .disableLayer _ => true
+  | .enableLayer _ => true
+  | _ => false
+
+/-- glyph-set operations proper: create / insert / delete / rename, through a layer or the font -/
 def Op.isGlyphOp : Op → Bool
   | .newGlyph _ _ => true
   | .insertGlyph _ _ => true
   | .delGlyph _ _ => true
   | .rename _ _ _ => true
+  | .fontNewGlyph _ => true
+  | .fontInsertGlyph _ => true
+  | .fontDelGlyph _ => true
+  | _ => false
+
+/-- glyph-set operations addressed to layer `L` -/
+def Op.onLayer (L : String) : Op → Bool
+  | .newGlyph l _ => decide (l = L)
+  | .insertGlyph l _ => decide (l = L)
+  | .delGlyph l _ => decide (l = L)
+  | .rename l _ _ => decide (l = L)
   | _ => false
 
 /-- the glyph names an operation speaks about -/
@@ -101,6 +250,9 @@ def Op.touched : Op → List Name
   | .insertGlyph _ g => [g]
   | .delGlyph _ g => [g]
   | .rename _ o n => [o, n]
+  | .fontNewGlyph g => [g]
+  | .fontInsertGlyph g => [g]
+  | .fontDelGlyph g => [g]
   | _ => []
 
 end GlyphOrder
